@@ -68,6 +68,8 @@ def decodeString(encoded):
     Returns the decoded string and renaining bytearray to be parsed
     '''
     length = encoded[0]*256 + encoded[1]
+    if len(encoded) < 2 + length:
+        raise ValueError("MQTT string declares %d bytes, only %d follow" % (length, len(encoded) - 2))
     return (encoded[2:2+length].decode('utf-8'), encoded[2+length:])
 
 
